@@ -165,9 +165,14 @@ def gen_form(rng, cell, gdim, cplx, nint, arity, itypes_all, metadata_fn=None, s
         G = Gen(U, rng, cplx=cplx, deriv=rng.choice([0, 1, 1, 2]), cond=rng.random() < 0.3 and not cplx, math=rng.random() < 0.5, geom=rng.random() < 0.5)
         if it == "interior_facet" and rng.random() < 0.4:
             G.unrestricted_prob = 0.15
-        integrand, args = G.integrand(arity, depth=rng.choice(list(depth)), space_names=space_names)
-        if rng.random() < 0.25:
-            integrand = integrand * (2 + geo_factor(U, rng))
+        same = [p for p in pieces if p[0] == it]
+        if same and rng.random() < 0.25:
+            # the very same integrand again (another, possibly overlapping, subdomain): contributions must add up
+            integrand = rng.choice(same)[2]
+        else:
+            integrand, args = G.integrand(arity, depth=rng.choice(list(depth)), space_names=space_names)
+            if rng.random() < 0.25:
+                integrand = integrand * (2 + geo_factor(U, rng))
         sid = subdomain_fn(rng)
         md = metadata_fn(rng)
         piece = integrand * U.measure(sid, md)
